@@ -23,6 +23,29 @@ func main() {
 		cmdBaseline(os.Args[2:])
 	case "replay":
 		cmdReplay(os.Args[2:])
+	case "scenario":
+		// govc scenario <function> <obligation-name>: run the scenario replay harness of a (known) finding on /repo
+		o := &Oblig{Func: os.Args[2], Name: os.Args[3], Kind: "post"}
+		if strings.Contains(o.Name, "#crash:") {
+			o.Kind = "crash"
+		}
+		rp := replayers[o.Func]
+		if rp == nil {
+			fmt.Println("no replay harness for", o.Func)
+			os.Exit(2)
+		}
+		name, src, ok := rp(map[string]string{}, o)
+		if !ok {
+			fmt.Println("harness needs a model")
+			os.Exit(2)
+		}
+		out, failed := runOverlayTest("/repo", name, src)
+		fmt.Println(out)
+		if failed {
+			fmt.Println("REPRODUCED on the real code")
+			os.Exit(1)
+		}
+		fmt.Println("not reproduced")
 	default:
 		fmt.Fprintln(os.Stderr, "unknown command", os.Args[1])
 		os.Exit(2)
